@@ -363,6 +363,9 @@ _Bool __CPROVER_uninterpreted_capture_class(const struct Position*, int, int, in
 #define spec_capture_class(p, m) __CPROVER_uninterpreted_capture_class(p, (m)->from_, (m)->to_, (m)->promoteTo_)
 #undef spec_them
 #define spec_them(p) __CPROVER_uninterpreted_them(p)
+_Bool __CPROVER_uninterpreted_domain_counts(const struct Position*);
+#undef DOMAIN_COUNTS
+#define DOMAIN_COUNTS(p) __CPROVER_uninterpreted_domain_counts(p)
 #endif
 '''
 
@@ -501,7 +504,8 @@ for _k in ('MoveGen_checkEvasions_w', 'MoveGen_checkEvasions_b'):
 # the occupancy accessor agrees with the board (needs the bitboards to be consistent with the board)
 CONTRACTS['Position_occupiedBB'] = {'requires': ['__CPROVER_is_fresh(self, sizeof(*self))', 'wf_bb(self)'], 'assigns': [],
                                     'ensures': ['__CPROVER_return_value == spec_occ(self->squares)']}
-_EVPRE = ['__CPROVER_is_fresh(pos, sizeof(*pos))', 'wf_bb(pos)', 'FLAGS_OK(pos)', 'men_ok(pos)', 'wf_rights(pos)', '!spec_in_check_b(pos->squares, !pos->whiteMove)']
+# DOMAIN_COUNTS: at most 16 men per side (quantifier of C01), so that counterexamples are positions of the property's domain
+_EVPRE = ['__CPROVER_is_fresh(pos, sizeof(*pos))', 'wf_bb(pos)', 'FLAGS_OK(pos)', 'men_ok(pos)', 'wf_rights(pos)', '!spec_in_check_b(pos->squares, !pos->whiteMove)', 'DOMAIN_COUNTS(pos)']
 for _sfx, _me in (('_w', 1), ('_b', 0)):
     _pre = _EVPRE + ['pos->whiteMove == %d' % _me]
     _mpre = _pre + ['__CPROVER_is_fresh(moveList, sizeof(*moveList))', 'occupied == spec_occ(pos->squares)', 'GM_OK', '0 <= ghost_hits && ghost_hits < 1000']
@@ -511,7 +515,8 @@ for _sfx, _me in (('_w', 1), ('_b', 0)):
         'ensures': ['__CPROVER_return_value == spec_evasion_targets(pos)']}
     # pawn section: exactly the pawn moves among the evasion candidates for the given target filter, each once
     CONTRACTS['MoveGen_checkEvasions_pawns' + _sfx] = {
-        'requires': _mpre, 'assigns': ['moveList->size', 'ghost_hits'],
+        # (stated for the target filter the generator actually computes, in a position in check: counterexamples are then replayable on the whole real function)
+        'requires': _mpre + ['spec_in_check(pos)', 'validTargets == spec_evasion_targets(pos)'], 'assigns': ['moveList->size', 'ghost_hits'],
         'ensures': ['ghost_hits == __CPROVER_old(ghost_hits) + (spec_pawn_evasion(pos, &ghost_m, validTargets) ? 1 : 0)',
                     'ghost_hits == __CPROVER_old(ghost_hits) + ((GM_FROM_PAWN(pos) && spec_evasion_candidate_vt(pos, &ghost_m, validTargets)) ? 1 : 0)']}
     # piece sections: exactly the non-pawn moves among the candidates, each once
@@ -528,7 +533,7 @@ for _sfx, _me in (('_w', 1), ('_b', 0)):
     # composition of the three fragments: the generated list is exactly the set of evasion candidates, each once
     CONTRACTS['MoveGen_checkEvasions_tiled' + _sfx] = {
         # the ghost values of the piece-section contract are defined here as well (free ghost variables: no restriction of the program state)
-        'requires': _pre + ['__CPROVER_is_fresh(moveList, sizeof(*moveList))', 'GM_OK', '0 <= ghost_hits && ghost_hits < 900']
+        'requires': _pre + ['spec_in_check(pos)', '__CPROVER_is_fresh(moveList, sizeof(*moveList))', 'GM_OK', '0 <= ghost_hits && ghost_hits < 900']
                     + [r.replace('validTargets', 'spec_evasion_targets(pos)') for r in CONTRACTS['MoveGen_checkEvasions_pieces' + _sfx]['requires'] if r.startswith('ghost_')],
         'assigns': ['moveList->size', 'ghost_hits'],
         'ensures': ['ghost_hits == __CPROVER_old(ghost_hits) + (spec_evasion_candidate(pos, &ghost_m) ? 1 : 0)']}
